@@ -387,6 +387,8 @@ class SAMIWriter(BaseWriter):
         self.last_time = None
 
     def write(self, caption_set):
+        # a span left open by an earlier write() must not leak into this one
+        self.open_span = False
         caption_set = deepcopy(caption_set)
         sami = BeautifulSoup(SAMI_BASE_MARKUP, "lxml-xml")
 
